@@ -120,9 +120,23 @@ func init() {
 func runC17(t *testing.T, cases []map[string]interface{}, ev *vEvents) {
 	const nw = 8
 	worlds := make([]*vWorld, nw)
+	oktaWorlds := make([]*vWorld, nw)
+	vips := make([]*vFakeVIP, nw)
 	for i := range worlds {
 		worlds[i] = newWorld(vWorldOpts{CertCfg: []string{"password"}, WebUICfg: []string{"password"}})
 		worlds[i].st.Config.Base.EnableLocalTOTP = true
+		vips[i] = worlds[i].attachVIP()
+		vips[i].setCode("dave", "111111")
+		worlds[i].attachOAuth2()
+		worlds[i].rawMux = verifServiceMux(worlds[i].st)
+		worlds[i].mux = vWrapMux(worlds[i])
+		// a deployment whose password backend and second factor is Okta
+		oktaWorlds[i] = newWorld(vWorldOpts{CertCfg: []string{"password"}, WebUICfg: []string{"password"}})
+		oktaWorlds[i].st.Config.Okta.Domain = "example"
+		oktaWorlds[i].st.Config.Okta.Enable2FA = true
+		oktaWorlds[i].attachOkta(map[string]string{"erin": "pw-erin"})
+		oktaWorlds[i].rawMux = verifServiceMux(oktaWorlds[i].st)
+		oktaWorlds[i].mux = vWrapMux(oktaWorlds[i])
 	}
 	html := map[string]string{"Accept": "text/html"}
 	vParallel(nw, len(cases), func(wk, i int) {
@@ -130,6 +144,7 @@ func runC17(t *testing.T, cases []map[string]interface{}, ev *vEvents) {
 		c := cases[i]
 		dest := vRenderClasses(vStrs2(c["dest"]))
 		var r vResp
+		note := ""
 		switch vStr(c, "handler") {
 		case "login":
 			r = w.Do(vReq{Method: "POST", Path: "/api/v0/login", Headers: html,
@@ -146,6 +161,33 @@ func runC17(t *testing.T, cases []map[string]interface{}, ev *vEvents) {
 			r = w.Do(vReq{Method: "POST", Path: totpAuthPath, Headers: html,
 				Cookies: map[string]string{authCookieName: w.mintCookie("carol", AuthTypePassword, 0)},
 				Form:    url.Values{"OTP": {code}, "login_destination": {dest}}})
+		case "vip":
+			r = w.Do(vReq{Method: "POST", Path: vipAuthPath, Headers: html,
+				Cookies: map[string]string{authCookieName: w.mintCookie("dave", AuthTypePassword, 0)},
+				Form:    url.Values{"OTP": {"111111"}, "login_destination": {dest}}})
+		case "okta":
+			wo := oktaWorlds[wk]
+			lr := wo.Do(vReq{Method: "POST", Path: "/api/v0/login", Headers: map[string]string{"Accept": "application/json"},
+				Form: url.Values{"username": {"erin"}, "password": {"pw-erin"}}})
+			ck := lr.Cookie(authCookieName)
+			if ck == nil {
+				note = "okta-login-failed"
+				break
+			}
+			r = wo.Do(vReq{Method: "POST", Path: okta2FAauthPath, Headers: html, Cookies: map[string]string{authCookieName: ck.Value},
+				Form: url.Values{"OTP": {"123456"}, "login_destination": {dest}}})
+		case "oauth2":
+			// federated login: the destination is given when the browser is sent to the provider and used when it returns
+			b := w.Do(vReq{Method: "GET", Path: oauth2LoginBeginPath, Headers: html, Form: url.Values{"login_destination": {dest}}})
+			rc := b.Cookie(redirCookieName)
+			pu, err := url.Parse(b.Header.Get("Location"))
+			if rc == nil || err != nil || pu.Query().Get("state") == "" {
+				note = "oauth2-begin-failed"
+				r = b
+				break
+			}
+			r = w.Do(vReq{Method: "GET", Path: redirectPath, Headers: html, Cookies: map[string]string{redirCookieName: rc.Value},
+				Form: url.Values{"state": {pu.Query().Get("state")}, "code": {"code-frank"}}})
 		default:
 			panic("handler not bound: " + vStr(c, "handler"))
 		}
@@ -153,9 +195,12 @@ func runC17(t *testing.T, cases []map[string]interface{}, ev *vEvents) {
 		redirected := r.Status >= 300 && r.Status < 400
 		ev.Emit(map[string]interface{}{"i": i, "ev": "Dest", "case": c,
 			"out": map[string]interface{}{"redirected": redirected, "profile": loc == profilePath, "loc": vClassify(loc),
-				"panic": r.Panic != "", "status": r.Status, "location": fmt.Sprintf("%q", loc)}})
+				"panic": r.Panic != "", "status": r.Status, "location": fmt.Sprintf("%q", loc), "note": note}})
 	})
 	for _, w := range worlds {
+		w.Close()
+	}
+	for _, w := range oktaWorlds {
 		w.Close()
 	}
 }
